@@ -90,6 +90,12 @@ func ruleR16a(h *H) {
 	}
 	cl := h.P.Closure(rs, applyDescend)
 	bad := 0
+	dbt := "db"
+	for _, r := range applyRoots(h, rule) {
+		if r.Signature.Recv() != nil {
+			dbt = namedName(r.Signature.Recv().Type())
+		}
+	}
 	for f := range cl {
 		if f.Blocks == nil || ir.RelPkg(ir.PkgPathOf(f)) != "server/kv" {
 			continue
@@ -100,7 +106,7 @@ func ruleR16a(h *H) {
 				return
 			}
 			ref, ok := ir.FieldAddrOf(fa)
-			if ok && ref.Struct != nil && ref.Struct.Obj().Name() == "db" && ir.RelPkg(ref.Struct.Obj().Pkg().Path()) == "server/kv" {
+			if ok && ref.Struct != nil && ref.Struct.Obj().Name() == dbt && ir.RelPkg(ref.Struct.Obj().Pkg().Path()) == "server/kv" {
 				bad++
 				h.Bad(rule, "db state read by the key generation in "+ir.FuncName(f), h.pos(in), "the sequence key generation reads db."+ref.Field+": it must be a function of the batch and the request only")
 			}
